@@ -308,6 +308,7 @@ def run_on_root(prop: str, root: str):
         rep = Report(prop, tier='quick', seed=0, level=getattr(mod, 'LEVEL', 'other'), quiet=True)
         try:
             world = World(Repo(root))
+            world.__dict__.setdefault('_dep_cache', {})[f'rules_{prop.lower()}'] = 'running'
             mod.run(world, rep)
         except AnalysisError as e:
             rep.error(str(e))
